@@ -130,16 +130,18 @@ impl Streams {
 
     /// Open a new stream.
     fn open(&mut self, config: ChannelsConfig) -> (StreamId, worker::Channels) {
-        self.seq += 1;
+        loop {
+            self.seq += 1;
 
-        let id = StreamId::git(self.link)
-            .nth(self.seq)
-            .expect("Streams::open: too many streams");
-        let channels = self
-            .register(id, config)
-            .expect("Streams::open: stream was already open");
-
-        (id, channels)
+            let id = StreamId::git(self.link)
+                .nth(self.seq)
+                .expect("Streams::open: too many streams");
+            // Nb. The remote can open a stream under any id, including the ones we
+            // would use next. Skip those that are taken.
+            if let Some(channels) = self.register(id, config) {
+                return (id, channels);
+            }
+        }
     }
 
     /// Register an open stream.
